@@ -293,6 +293,9 @@ def run(ctx) -> None:
     r2_type_plumbing(ctx, nf)
     r3_std_constants(ctx, nf)
     r4_load_path(ctx, nf)
+    from .. import lints
+    lints.arm(ctx)
+
 
 
 # ---------------------------------------------------------------------------------------
